@@ -94,10 +94,26 @@ class Check(PropertyCheck):
             npts = {'scalar': 1, 'empty': 0, '1d': rng.randint(1, 40), '2d': 12, '3d': 8,
                     '2dF': 12, '2dT': 12, '1dS': 9}[qs]
             pts = query_points(rng, d, npts)
-            integer = rng.random() < 0.15
+            integer = rng.random() < 0.25
+            idt = 'int64'
             if integer:
+                # integer query arrays, also of narrow dtypes, with far-away points (the code must not
+                # overflow in the query dtype) and, half of the time, an integer-valued centre
+                idt = rng.choice(['int64', 'int32', 'int16'])
+                if rng.random() < 0.5 and 'c' in d:
+                    d['c'] = [float(round(max(-200.0, min(200.0, d['c'][0])))), float(round(max(-200.0, min(200.0, d['c'][1]))))]
+                    d['c_int'] = True
+                # offsets whose square wraps to (nearly) zero in the narrow dtype are the dangerous ones
+                far = {'int64': 2 ** 32 * rng.randint(1, 3), 'int32': 65536 * rng.randint(1, 100),
+                       'int16': 256 * rng.randint(1, 100)}[idt]
+                cx0, cy0 = G.approx_center(d)
+                lim = {'int64': 2 ** 62, 'int32': 2 ** 31 - 1, 'int16': 2 ** 15 - 1}[idt]
                 pts = [(float(round(x)), float(round(y))) for (x, y) in pts]
-            cases.append(G.add_history(rng, {'kind': d['kind'], 'region': d, 'qshape': qs, 'int': integer,
+                pts = [(x + rng.choice([far, -far, 0]), y + rng.choice([0, 0, far, -far])) if rng.random() < 0.5 else (x, y)
+                       for (x, y) in pts]
+                if any(abs(x) >= lim or abs(y) >= lim for (x, y) in pts) or abs(cx0) > 10 ** 5:
+                    idt = 'int64'
+            cases.append(G.add_history(rng, {'kind': d['kind'], 'region': d, 'qshape': qs, 'int': integer, 'idtype': idt,
                                              'pts': [[x, y] for (x, y) in pts]}))
         return cases
 
@@ -106,10 +122,10 @@ class Check(PropertyCheck):
         from regions import PixCoord
         xs = [p[0] for p in case['pts']]
         ys = [p[1] for p in case['pts']]
-        dt = int if case['int'] else float
+        dt = getattr(np, case.get('idtype', 'int64')) if case['int'] else float
         qs = case['qshape']
         if qs == 'scalar':
-            return PixCoord(dt(xs[0]), dt(ys[0])), None
+            return PixCoord((int if case['int'] else float)(xs[0]), (int if case['int'] else float)(ys[0])), None
         shape = {'empty': (0,), '1d': (len(xs),), '2d': (3, 4), '3d': (2, 2, 2),
                  '2dF': (3, 4), '2dT': (3, 4), '1dS': (len(xs),)}[qs]
         ax = np.array(xs, dtype=dt).reshape(shape)
